@@ -99,10 +99,13 @@ def run(chk: core.Check):
     # the stateful phase's thread (real execute_state_machine_loop under a scripted Hypothesis) vs ModelP_C11: steps after the stop
     from harness.props import stateful_producer as SP
 
-    chk.stages["stateful_producer"] = SP.stage(chk, (80 if quick else 2000) * (3 if chk.broken else 1))
+    chk.stages["stateful_producer"] = SP.stage(chk, (80 if quick else 2000) * (3 if chk.broken else 1), c12=True)
     chk.stages["rate_limit"] = c12_extra.rate_stage(chk, (3 if quick else 25) * (3 if chk.broken else 1))
     for f in chk.findings:
-        chk.known(f, False)
+        if f.get("region") == "stateful_scenario_after_stop":
+            chk.known(f, SP.scenarios_after_stop(SP.run_real(f["witness"])) >= 1)
+        else:
+            chk.known(f, False)
 
 
 def after_limit(chk, n):
